@@ -39,17 +39,24 @@ def notIncreasing : List Int → Bool
   | a :: b :: rest => decide (b ≤ a) || notIncreasing (b :: rest)
   | _ => false
 
-/-- the explicit-tuple check of `_validate_exit_planes`: ValueError unless the planes are strictly increasing and start at −1
-(entrance plane) or later; there is no upper bound (a slice window of a potential carries the exit planes of the full stack),
-and the empty tuple (used for single slices) passes -/
-def tupleRejected (l : List Int) : Bool :=
-  notIncreasing l || (decide (0 < l.length) && decide (l.headD 0 < -1))
+/-- the explicit-tuple check of `_validate_exit_planes`: ValueError unless the planes are strictly increasing slice
+indices between −1 (entrance plane) and `num_slices − 1`; the empty tuple (used for single slices) passes -/
+def tupleRejected (l : List Int) (n : Int) : Bool :=
+  notIncreasing l || (decide (0 < l.length) && (decide (l.headD 0 < -1) || decide (l.getLastD 0 ≥ n)))
+
+/-- `_exit_planes_of_selection` for a contiguous window `[a, b)` of the slices: the parent's planes inside the window,
+relative to the window; the entrance plane only if the window starts at slice 0; `none` (→ default: last slice of the window)
+when nothing is left or the result is not increasing -/
+def windowPlanes (planes : List Int) (a b : Nat) : Option (List Int) :=
+  let inside := (planes.filter fun p => decide ((a : Int) ≤ p) && decide (p < (b : Int))).map fun p => p - (a : Int)
+  let r := (if decide (planes.headD 0 = -1) && decide (a < b) && decide (a = 0) then [(-1 : Int)] else []) ++ inside
+  if r.isEmpty || notIncreasing r then none else some r
 
 /-- `_validate_exit_planes` (accepted explicit tuples are returned unchanged) -/
 def validateExitPlanes (spec : ExitSpec) (n : Int) : Except String (List Int) :=
   match spec with
   | .none => .ok [vNonePlane n]
-  | .tuple l => if tupleRejected l then .error "value_error" else .ok l
+  | .tuple l => if tupleRejected l n then .error "value_error" else .ok l
   | .int k =>
     if vTooLarge k n then .ok [vTooLargePlane k n]
     else
